@@ -372,3 +372,39 @@ def r15_13_no_coarser_type_on_the_way(ctx: Ctx) -> RuleResult:
             else:
                 rr.fail(f.qual, f"`{unparse(bad)[:80]}`: {table[unparse(bad.func)]}", ctx.loc(f, bad))
     return rr
+
+
+# ------------------------------------------------------------------------------------------- R15.14 / R15.15
+
+
+@rule("C15")
+def r15_14_bridges_truncate_only_to_microseconds(ctx: Ctx) -> RuleResult:
+    """The stdlib types resolve microseconds; the only precision an outgoing bridge may drop is what lies below a microsecond.
+    Every truncating division / remainder in a to_* / from_* bridge must therefore divide by the nanoseconds (or ticks) per
+    microsecond - dividing an offset's seconds by 60 to build a timedelta from minutes loses the seconds of an LMT offset."""
+    import re
+
+    from ..kit import own_nodes
+
+    rr = RuleResult("R15.14", "stdlib bridges truncate only from nanoseconds / ticks to microseconds: no other truncating division in a to_* / from_* bridge", min_instances=3)
+    allowed = {"PyodaConstants.NANOSECONDS_PER_MICROSECOND", "PyodaConstants.TICKS_PER_MICROSECOND", "1"}
+    files = anchor_files("C15")
+    for f in sorted(set(ctx.M.func_of_node.values()), key=lambda x: x.qual):
+        if isinstance(f.node, ast.Lambda) or f.cls is None or f.mod.rel not in files:
+            continue
+        if not re.search(r"^(to_|from_).*(datetime|timedelta|date$|time$)", f.name):
+            continue
+        for n in own_nodes(f.node):
+            div = None
+            if isinstance(n, ast.BinOp) and isinstance(n.op, (ast.FloorDiv, ast.Div, ast.Mod)):
+                div = n.right
+            elif isinstance(n, ast.Call) and unparse(n.func).split(".")[-1] in ("_towards_zero_division", "_csharp_modulo", "divmod") and len(n.args) >= 2:
+                div = n.args[1]
+            if div is None:
+                continue
+            rr.inst()
+            if unparse(div) in allowed:
+                rr.ok({"bridge": f.qual, "divides by": unparse(div)})
+            else:
+                rr.fail(f.qual, f"`{unparse(n)[:80]}` truncates to a unit coarser than a microsecond: the part below `{unparse(div)}` is dropped from the converted value", ctx.loc(f, n))
+    return rr
